@@ -37,6 +37,10 @@ let show_answer a = match a with
   | ANoProp -> "noprop"
   | AAbsent -> "absent"
   | ACount n -> dec n
+  | ABits bs -> "[" ^ OStr.concat "" (OLst.map (fun b -> " " ^ bool01 b) bs) ^ " ]"
+  | AVals vs -> "[" ^ OStr.concat "" (OLst.map (fun v -> " " ^ enc_val v) vs) ^ " ]"
+  | AText s -> enc_str (ostr s)
+  | ASigns (a, b, c) -> dec a ^ " " ^ dec b ^ " " ^ dec c
   | AObs o ->
     "dt=" ^ enc_type o.o_type ^ " n=" ^ dec o.o_count ^ " v=[" ^ OStr.concat "" (OLst.map (fun v -> " " ^ enc_val v) o.o_vals) ^ " ]"
     ^ " u=" ^ opt (fun s -> enc_str (ostr s)) o.o_unit ^ " e=" ^ opt enc_dbl o.o_unc ^ " d=" ^ opt (fun s -> enc_str (ostr s)) o.o_def
@@ -45,7 +49,13 @@ let show_model r = match r with
   | Err e -> "ERR " ^ ostr e
   | UB w -> "UB " ^ ostr w
 let show_spec x = match x with Some a -> "OK " ^ show_answer a | None -> "ERR"
-let parse toks = match toks with
+(* a route suffix (set:retype, obs:alt, veq:swap ...) says how the harness builds its Variants / reads them: same request *)
+let strip_route toks = match toks with
+  | c :: r when OStr.contains c ':' -> OStr.sub c 0 (OStr.index c ':') :: r
+  | _ -> toks
+let get_type t = match t with
+  | "CStr" -> TString | "None" -> TBad (cstr "Nothing") | _ -> dec_type t
+let parse toks = match strip_route toks with
   | ["new_t"; t] -> NewT (dec_type t)
   | ["new_v"; v] -> NewV (dec_val v)
   | "new_vs" :: r -> NewVs (dec_vals r)
@@ -62,6 +72,14 @@ let parse toks = match toks with
   | ["reopen"; "rw"] -> Reopen false
   | ["obs"] -> Obs
   | ["count"] -> Count
+  | ["veq"; a; b] -> VEq (dec_val a, dec_val b)
+  | ["vget"; v; "NoneT"] | ["vgeto"; v; "NoneT"] -> VGetNoneT (dec_val v)
+  | ["vget"; v; t] | ["vgeto"; v; t] -> VGet (get_type t, dec_val v)
+  | ["vstr"; v] -> VShow (dec_val v)
+  | ["vsup"; t] -> VSup (dec_type t)
+  | ["vswap"; a; b] -> VSwap (dec_val a, dec_val b)
+  | ["cmp"; n] -> Cmp (cstr (dec_str n))
+  | ["pstr"] -> PShow
   | _ -> failwith "bad command"
 (* Which tree the model mirrors.  Default: the repaired behaviour (Data/Prop.v [repaired]); the environment
    variable C14_MODEL=pinned selects the four deviations of the originally pinned tree (for replaying old findings). *)
@@ -79,5 +97,8 @@ let handle toks =
   let (m', r) = step tree_quirks o !ms in
   let (s', x) = spec_step o !ss in
   ms := m'; ss := s';
-  show_model r ^ " ## " ^ show_spec x
+  (* compare() of equally named properties answers the bare word "ids" *)
+  let raw a = (match o, a with Cmp _, AText s -> ostr s | _ -> show_answer a) in
+  (match r with Ok a -> "OK " ^ raw a | Err e -> "ERR " ^ ostr e | UB w -> "UB " ^ ostr w)
+  ^ " ## " ^ (match x with Some a -> "OK " ^ raw a | None -> "ERR")
 let () = run_file OSys.argv.(1) handle
